@@ -883,7 +883,20 @@ def rule_handler_order(model):
                           'when two clauses match an exception -- a bare '
                           'except written before a named one -- the wrong '
                           'one handles it', node=c, ctx=f)
-    if n < 2:
+    # the exception names of an except tag are separated by any white
+    # space: the list comes from split() without an argument
+    for f in model.closure(fi):
+        for c in own_nodes(f.node):
+            if isinstance(c, ast.Call) and isinstance(
+                    c.func, ast.Attribute) and c.func.attr == 'split' and (
+                    c.args or c.keywords):
+                r.instance(f.where, c, 'SPLIT AT ONE CHARACTER')
+                r.finding(f.where, c, f'`{norm(c)}`: the exception names '
+                          'are split at one particular character: names '
+                          'separated by a tab, a newline or two blanks are '
+                          "not recognised (and '' -- the catch-all -- "
+                          'appears between two blanks)', node=c, ctx=f)
+    if n < 1:
         raise AnalysisError(f'C14.R11: only {n} handler-table appends found '
                             'in Try.__init__')
     return r
